@@ -178,3 +178,29 @@ func ScalarAddOne(s []byte) []byte {
 	x.FillBytes(out)
 	return out
 }
+
+// G1XNearP returns a compressed G1 encoding whose x field is p+d.
+func G1XNearP(d int64) []byte {
+	b := fp48(new(big.Int).Add(P, big.NewInt(d)))
+	b[0] |= 0x80
+	return b
+}
+
+// G2XNearP returns a compressed G2 encoding where component `which` of x is p+d and the other is 1.
+func G2XNearP(d int64, which int) []byte {
+	v := new(big.Int).Add(P, big.NewInt(d))
+	x := fp2{v, big.NewInt(1)}
+	if which == 1 {
+		x = fp2{big.NewInt(1), v}
+	}
+	b := append(fp48(x.a), fp48(x.b)...)
+	b[0] |= 0x80
+	return b
+}
+
+// ScalarNearR returns the 32-byte big-endian encoding of r+d.
+func ScalarNearR(d int64) []byte {
+	out := make([]byte, 32)
+	new(big.Int).Add(R, big.NewInt(d)).FillBytes(out)
+	return out
+}
